@@ -984,6 +984,12 @@ example : ∃ val arr, checkSetValue exSalary (.int 100) = .ok val ∧
   (C12_value_placed exSys none exPersons ["a", "b", "c"] exWs (by decide +kernel) [] _ (.s "a") _ rfl
     (by decide) [] [] (.s "salary") _ rfl (by simp) exSalary (by decide +kernel) _ [] [] rfl
     (.s "month:2018-01") (.int 100) rfl rfl exJan (by decide +kernel) (by simp)).2
+-- C12_value_default: c declares nothing: the default at c's index
+example : (alGet (applyWrites [] exWs) ("salary", exJan.text)).map (fun a => a[(["a", "b", "c"] : List String).idxOf "c"]?)
+    = some (some exSalary.default) := by decide +kernel
+-- C12_value_placed_group: the rent of h at index 0, the default in the group appended for c (repair C12f)
+example : (addGroupEntity exSys none exHousehold ["a", "b", "c"] (.obj exHouseholds) []).toOption.map
+    (fun r => alGet r.2 ("rent", exJan.text)) = some (some [.num 5, .num 0]) := by decide +kernel
 -- C12_membership_roles, C12_own_group: b and a are the two parents of h (sub-roles by index), c is left out
 example : (addGroupEntity exSys none exHousehold ["a", "b", "c"] (.obj exHouseholds) []).toOption.map
     (fun r => (r.1.ids, r.1.memb, r.1.roles)) =
